@@ -66,7 +66,7 @@ static void run() {
     bool T = a.thorough();
     vp::stats().rule = vp::fmt("enum: corpus of %zu reference-encoded serial frames (every type x 8/16-bit x payload sizes 0,1,2,3,8,31); on each: every single-bit flip (also with a receive block one octet too small and with a failing allocation), every two-bit flip and every burst "
                                "of length 2..16 (first and last bit set, %s interior patterns; bits numbered in UART wire order (LSB first) and also MSB first) at every bit offset behind the first header word, every truncation length, extensions by 1..4 octets; "
-                               "plus frames with every combination of the three option bits x right/wrong header CRC x right/wrong payload CRC x payload length deltas on both transports, and random "
+                               "every single-bit flip of the header of frames without (or with only one) checksum, judged by the reference reading; plus frames with every combination of the three option bits x right/wrong header CRC x right/wrong payload CRC x payload length deltas on both transports, and random "
                                "octet strings; oracle = reference decoder verdict, empty back-end log, no ACK, prescribed meta / error reply", corpus().size(), T ? "all" : "64 random");
     vp::stats().exhaustive = T;
     vp::Rng rng(a.seed * 17011 + a.shard);
@@ -107,6 +107,22 @@ static void run() {
             run_case({true, mem16, true, d}, "extended");
         }
         if (vp::too_many_failures()) return;
+    }
+    // frames as the TCP transport carries them (no checksums) and with one checksum only: every single-bit flip of the header, judged by the
+    // reference reading (nothing guards these frames but the size rule and the header encoding - a flipped top bit of the size field must be
+    // found implausible by arithmetic alone)
+    for (int w16 = 0; w16 < 2; w16++) for (int opt : {0, (int)rp::PLCRC, (int)rp::HDCRC}) for (uint32_t n : {0u, 1u, 2u, 5u}) for (int write = 0; write < 2; write++) {
+        Bytes pl(write ? (size_t)n * (w16 ? 2 : 1) : 0);
+        for (size_t i = 0; i < pl.size(); i++) pl[i] = mem_octet((uint32_t)i, 31 + n);
+        rp::Frame f = rp::make_request(false, write, w16, (uint16_t)(0x2200 + n), 0x00020000u + n, n, pl);
+        f.options = (f.options & rp::WORD16) | (pl.empty() ? (opt & ~(int)rp::PLCRC) : opt);
+        Bytes raw = rp::encode(f);
+        size_t hdrbits = (raw.size() - pl.size()) * 8;
+        for (size_t b = 0; b < hdrbits; b++) {
+            if (idx++ % a.nshards != a.shard) continue;
+            Bytes d = raw; flip(d, b);
+            for (int serial = 0; serial < 2; serial++) run_case({(bool)serial, (bool)w16, false, d}, "header-bit-flip-without-header-checksum");
+        }
     }
     // every combination of the option bits with independently right/wrong checksums and payload lengths, both transports
     for (int serial = 0; serial < 2; serial++) for (int type : {0, 1, 2, 3, 15}) for (int opt = 0; opt < 8; opt++) for (int badh = 0; badh < 2; badh++) for (int badp = 0; badp < 2; badp++)
